@@ -73,14 +73,21 @@ def main():
         import re
         jobs = [j for j in jobs if re.search(a.only, j['name'])]
     out_path = os.path.join(HERE, 'seeded', 'RESULTS.json')
+    new = {}
+    with cf.ThreadPoolExecutor(a.jobs) as ex:
+        for r in ex.map(run_one, list(enumerate(jobs))):
+            new[r['name']] = r
+            det = [c for c, v in r['checks'].items() if v['detected']]
+            print('%-70s %s' % (r['name'][:70], ('DETECTED by ' + ','.join(det)) if det else ('ERROR ' + r['error'] if 'error' in r else 'NOT DETECTED')), flush=True)
+    # merge into the file as it is now (other runs may have written meanwhile)
     old = {}
     if os.path.exists(out_path):
         old = {r['name']: r for r in json.load(open(out_path))['results']}
-    with cf.ThreadPoolExecutor(a.jobs) as ex:
-        for r in ex.map(run_one, list(enumerate(jobs))):
-            old[r['name']] = r
-            det = [c for c, v in r['checks'].items() if v['detected']]
-            print('%-70s %s' % (r['name'][:70], ('DETECTED by ' + ','.join(det)) if det else ('ERROR ' + r['error'] if 'error' in r else 'NOT DETECTED')), flush=True)
+    old.update(new)
+    # results of mutants that are no longer defined are dropped
+    defined = set(m['name'] for m in json.load(open(os.path.join(HERE, 'seeded', 'hand', 'mutants.json'))))
+    defined |= set(d for d in os.listdir(os.path.join(HERE, 'seeded')) if os.path.exists(os.path.join(HERE, 'seeded', d, 'meta.json')))
+    old = {k: v for k, v in old.items() if k in defined}
     head = subprocess.run(['git', '-C', '/repo', 'rev-parse', '--short', 'HEAD'], capture_output=True, text=True).stdout.strip()
     json.dump(dict(repo_head=head, tier='quick', results=sorted(old.values(), key=lambda r: r['name'])), open(out_path, 'w'), indent=1)
     return 0
